@@ -235,10 +235,6 @@ pub(crate) struct ConvContext {
     /// Read only by `record_ram_write` (AND'd into a write-enable); balanced
     /// push/pop leaves it empty at statement-stream boundaries.
     pub cond_stack: Vec<CondTerm>,
-    /// True while an `always_ff` body is converted: reads of a flip-flop variable
-    /// then resolve to its Q nets — assignments there are non-blocking, so a read
-    /// after a write in the same block still sees the pre-edge value.
-    pub in_ff: bool,
     /// RAM-inference thresholds, forwarded to flattened child conversions.
     pub ram_config: RamConfig,
     /// Target cell library, scoring the restructure A/B in `finalize`.
@@ -282,7 +278,6 @@ impl ConvContext {
             ram_builders: HashMap::new(),
             flattened_rams: Vec::new(),
             cond_stack: Vec::new(),
-            in_ff: false,
             ram_config,
             library,
         }
@@ -723,10 +718,7 @@ impl ConvContext {
                         }
                     }
                 }
-                self.in_ff = true;
-                let r = process_statements(self, &main_stmts, &mut current);
-                self.in_ff = false;
-                r?;
+                process_statements(self, &main_stmts, &mut current)?;
                 for (vid, nets) in current {
                     let pre = match self.ff_allocation.get(&vid) {
                         Some(p) => p.ff_indices.clone(),
